@@ -318,9 +318,26 @@ pub struct PanicInfo {
 impl PanicInfo {
     /// call-site fingerprint: in-repo file + message with digits stripped (line numbers move)
     pub fn fingerprint(&self) -> String {
-        let f = self.file.strip_prefix("/repo/").unwrap_or(&self.file);
-        format!("panic@{}:{}", f, strip_digits(&self.msg))
+        format!("panic@{}:{}", crate_relative(&self.file), strip_digits(&self.msg))
     }
+}
+
+
+/// Source path relative to the workspace crate directory, independent of where the repository is
+/// checked out (`/repo/arrow-csv/src/writer.rs` and `/scratch/x/repo/arrow-csv/src/writer.rs` both
+/// give `arrow-csv/src/writer.rs`); registry and toolchain paths are kept from the crate name on.
+pub fn crate_relative(file: &str) -> String {
+    let parts: Vec<&str> = file.split('/').collect();
+    // a workspace crate directory is the component right before a `src` / `tests` / `examples` / `benches` dir
+    for i in 1..parts.len() {
+        if matches!(parts[i], "src" | "tests" | "examples" | "benches") && (parts[i - 1].starts_with("arrow") || parts[i - 1].starts_with("parquet")) {
+            return parts[i - 1..].join("/");
+        }
+    }
+    if let Some(i) = parts.iter().position(|p| p.starts_with("index.crates.io-")) {
+        return parts[i + 1..].join("/");
+    }
+    file.strip_prefix("/repo/").unwrap_or(file).to_string()
 }
 
 pub fn strip_digits(s: &str) -> String {
